@@ -43,7 +43,8 @@ func main() {
 		"Rejected inputs (checked for nil header / nil reader and against the reference grammar) are counted in counters.inputs_rejected only"
 	r.Assumptions = []string{
 		"part (i) is exhaustive only over the stated 16-class token alphabet, its listed variants and the stated length bound; bytes outside the tokens appear only through parts (ii) and (iii)",
-		"the intro line is fixed in part (i); intro variants are exercised by the re-encodings and single-byte edits of part (ii)",
+		"the intro line is fixed in part (i); it has its own family (ii-b): every single-byte insertion/deletion/substitution over all 256 byte values, case changes, version-number respellings, prefix/suffix variants, each before 4 valid headers with payload",
+		"the version number is the only number internal/format interprets; the scrypt work factor is an opaque argument here and belongs to C10",
 		"readers deliver data in the patterns of mon.Schedules (no (0,nil) reads, no read errors: those belong to C12/C13)",
 		"the differential is one-directional: refage-well-formed => accepted; a larger accepted language is not a C07 violation while the round trip holds",
 		"long lines: stanza opening lines of 4096+-64, 8192+-8, 65536+-8, 100000 and 1000000 bytes only; body lines are at most 65 bytes in any accepted header, so only opening lines can exceed a buffer",
@@ -102,7 +103,10 @@ func main() {
 	}
 	runMutations(o, seeds, r.Pick(150_000, 2_000_000))
 
+	runLineStacked(o, seeds, r.Pick(6, 60))
 	lap("(ii) mutations")
+	runIntro(o, seeds)
+	lap("(ii-b) intro line family")
 
 	// (iii)
 	runGenerated(o, r.Pick(15_000, 300_000))
@@ -112,12 +116,12 @@ func main() {
 	lap("(iii-b) long opening lines")
 
 	// sanity: each part must have produced both verdicts
-	for _, p := range []string{"tokens", "mutation", "generated", "longline"} {
+	for _, p := range []string{"tokens", "mutation", "intro", "generated", "longline"} {
 		if r.Counter("accepted_"+p) == 0 {
 			r.Inconclusive("part %+q accepted no input", p)
 		}
 	}
-	for _, p := range []string{"tokens", "mutation"} {
+	for _, p := range []string{"tokens", "mutation", "intro"} {
 		if r.Counter("rejected_"+p) == 0 {
 			r.Inconclusive("part %+q rejected no input", p)
 		}
